@@ -223,13 +223,14 @@ fn run_scenario(out: &mut Out, scn: &Value, idx: usize) {
 /// scenarios for Yen's algorithm under limits: accept-all similarity and a shortest route of at least three edges (outside
 /// the trigger conditions of the recorded findings that never return), k = 2..3, an iteration or size limit of the order
 /// of what one sub-search needs
+static K3: std::sync::atomic::AtomicBool = std::sync::atomic::AtomicBool::new(false);
 fn gen_yen_limits(r: &mut StdRng, maxv: usize) -> Option<Value> {
     let mut s = gen(r, maxv);
     s["kalg"] = json!("yens");
     s["orient"] = json!("vertex");
     s["sim"] = json!({"type": "accept_all", "p": 0, "explicit": r.gen_bool(0.5)});
     s["term"] = json!({"type": "default", "n": 0});
-    let k = r.gen_range(2..=3);
+    let k = if K3.load(std::sync::atomic::Ordering::Relaxed) { r.gen_range(3..=4) } else { r.gen_range(2..=3) };
     s["k"] = json!(k);
     s["kcfg"] = json!(k);
     s["k_src"] = json!("cfg");
@@ -357,6 +358,7 @@ pub fn main(args: &[String]) -> i32 {
         let maxv = arg_usize(args, "--maxv", 8);
         let ny = arg_usize(args, "--yen-limits", 0);
         if ny > 0 {
+            K3.store(has_flag(args, "--k3"), std::sync::atomic::Ordering::Relaxed);
             let mut r = rng(14);
             let (mut made, mut tries) = (0, 0);
             while made < ny && tries < 200 * ny {
